@@ -347,3 +347,111 @@ func TestVerifC12KyberPoly(t *testing.T) {
 		vlib.NonTrivialH(sub, "", vlib.Hash64([]byte(op), raw))
 	})
 }
+
+// NTT and InvNTT on structured inputs over their whole documented domain
+// (|coefficient| ≤ q), dispatched (AVX2, tangled order) and generic code, against
+// the linear model Σ x[i]·T(e_i) mod q built from the transforms of the unit
+// vectors of the same back-end, the documented output bounds (7q resp. q), and
+// against each other.
+func TestVerifC12KyberNTTStructured(t *testing.T) {
+	defer vlib.Done()
+	const q = int64(c12Q)
+	const sub = "kyber.poly"
+	backend := "generic-dispatch"
+	if c12HasAVX2() {
+		backend = "avx2"
+	}
+	type tf struct {
+		name, be string
+		f        func(p *Poly) // input and output in natural order
+	}
+	tfs := []tf{
+		{"NTT", backend, func(p *Poly) { p.NTT(); p.Detangle() }}, {"NTT", "generic", func(p *Poly) { p.nttGeneric() }},
+		{"InvNTT", backend, func(p *Poly) { p.Tangle(); p.InvNTT() }}, {"InvNTT", "generic", func(p *Poly) { p.invNTTGeneric() }},
+	}
+	basis := make([][N][N]int64, len(tfs))
+	for k, x := range tfs {
+		for i := 0; i < N; i++ {
+			var e Poly
+			e[i] = 1
+			x.f(&e)
+			for j := range e {
+				basis[k][i][j] = c12ModQ(int64(e[j]))
+			}
+		}
+	}
+	vals := []int16{0, 1, -1, c12Q - 1, -(c12Q - 1), c12Q, -c12Q, c12Q, -c12Q, c12Q / 2}
+	vlib.Check(t, vlib.N(400, 4000), func(t *rapid.T) {
+		var x Poly
+		lo := vals[rapid.IntRange(0, len(vals)-1).Draw(t, "lo")]
+		hi := vals[rapid.IntRange(0, len(vals)-1).Draw(t, "hi")]
+		kind := rapid.SampledFrom([]string{"constant", "blocks", "blocks", "blocks", "spike", "ramp", "random", "random-two-valued"}).Draw(t, "kind")
+		raw := make([]byte, 2*N)
+		vlib.FillRandom(t, raw, "raw")
+		sh := uint(rapid.IntRange(0, 7).Draw(t, "blk"))
+		pos := rapid.IntRange(0, N-1).Draw(t, "pos")
+		for i := range x {
+			switch kind {
+			case "constant":
+				x[i] = hi
+			case "blocks":
+				x[i] = lo
+				if (i>>sh)&1 == 1 {
+					x[i] = hi
+				}
+			case "spike":
+				x[i] = lo
+				if i == pos {
+					x[i] = hi
+				}
+			case "ramp":
+				x[i] = int16(-c12Q + (2*c12Q*i)/(N-1))
+			case "random-two-valued":
+				x[i] = lo
+				if raw[i]&1 == 1 {
+					x[i] = hi
+				}
+			default:
+				x[i] = int16(int32(uint32(raw[2*i])|uint32(raw[2*i+1])<<8)%(2*c12Q+1) - c12Q)
+			}
+		}
+		vlib.Eval(sub)
+		vlib.Class(sub, "op=NTT/InvNTT-structured")
+		vlib.Class(sub, "pattern="+kind)
+		var outs [4]Poly
+		for k, tr := range tfs {
+			y := x
+			tr.f(&y)
+			outs[k] = y
+			bound := int32(7 * c12Q)
+			if tr.name == "InvNTT" {
+				bound = c12Q
+			}
+			var want [N]int64
+			for i := 0; i < N; i++ {
+				xi := c12ModQ(int64(x[i]))
+				if xi == 0 {
+					continue
+				}
+				for j := 0; j < N; j++ {
+					want[j] = (want[j] + xi*basis[k][i][j]) % q
+				}
+			}
+			for j := range y {
+				if c12ModQ(int64(y[j])) != want[j] || c12Abs(int32(y[j])) > bound {
+					vlib.Report(t, "C12/kyber.poly/"+tr.name+"-structured/"+tr.be+"/wrong-result", fmt.Sprintf("pattern %s lo=%d hi=%d: coefficient %d = %d, linear model gives %d, documented bound %d", kind, lo, hi, j, y[j], want[j], bound))
+					return
+				}
+			}
+		}
+		for k := 0; k < 4; k += 2 {
+			for j := 0; j < N; j++ {
+				if c12ModQ(int64(outs[k][j])) != c12ModQ(int64(outs[k+1][j])) {
+					vlib.Report(t, "C12/kyber.poly/"+tfs[k].name+"-structured/backends-differ", fmt.Sprintf("pattern %s coefficient %d: %s %d, generic %d", kind, j, backend, outs[k][j], outs[k+1][j]))
+					return
+				}
+			}
+		}
+		vlib.NonTrivialH(sub, "", vlib.Hash64([]byte("ntt-structured"), []byte(kind), []byte{byte(lo), byte(uint16(lo) >> 8), byte(hi), byte(uint16(hi) >> 8), byte(sh), byte(pos)}, raw))
+	})
+}
